@@ -34,6 +34,10 @@ def ddr3(mhz, **kw):
              module=syn("DDR3", mhz * 1e6, dict(tREFI=1000.0, tWTR=[4, 7.5], tCCD=[4, None], tRRD=[4, 10.0]),
                         dict(tRP=13.75, tRCD=13.75, tWR=15.0, tRFC=[None, 60.0], tFAW=[None, 40.0], tRAS=35.0)))
     d.update(kw); return d
+# DDR3 behind a half-rate (1:2) PHY: BL8 -> tCCD = 4 clocks = 2 controller cycles = nphases
+DDR3_HALF = dict(nphases=2, memtype="DDR3", databits=8, colbits=10, cl=6, cwl=5, RL=3, WL=1,
+                 module=syn("DDR3", 100e6, dict(tREFI=1000.0, tWTR=[4, 7.5], tCCD=[4, None], tRRD=[4, 10.0]),
+                            dict(tRP=13.75, tRCD=13.75, tWR=15.0, tRFC=[None, 60.0], tFAW=[None, 40.0], tRAS=35.0)))
 def ddr2(mhz, **kw):
     d = dict(nphases=2, memtype="DDR2", databits=8, colbits=10, cl=3, cwl=2, RL=3, WL=0,
              module=syn("DDR2", mhz * 1e6, dict(tREFI=1000.0, tWTR=[None, 7.5], tCCD=[2, None], tRRD=[None, 10.0]),
@@ -59,6 +63,7 @@ def configs(tier):
         add("ddr3x4-200MHz-1p-K3-norefresh", refresh=False, K=3, **ddr3(200))
         add("ddr3x4-200MHz-1p-K2-refresh-W20", refresh=True, K=2, window=20, **ddr3(200))
         add("ddr2x2-133MHz-1p-K3-norefresh", refresh=False, K=3, **ddr2(133))
+        add("ddr3x2-100MHz-1p-K3-1row-norefresh", refresh=False, K=3, rows=(0,), cols=(0, 8), **DDR3_HALF)
         add("ddr2x2-133MHz-1p-K2-refresh-W20", refresh=True, K=2, window=20, **ddr2(133))
     else:
         add("sdrFAW-1p-K5-norefresh", refresh=False, K=5, wr_only=True, **SDR_FAW)
